@@ -9,3 +9,9 @@ func Ready(site string, idx int) {}
 
 // Recv is called by a pipeline consumer immediately after it has received record idx.
 func Recv(site string, idx int) {}
+
+// Begin is called at the top of a pipeline entry point (threads = the size of its worker pool).
+func Begin(site string, threads int) {}
+
+// End is called when a pipeline entry point returns.
+func End(site string) {}
